@@ -511,6 +511,10 @@ pub struct Stream {
     pub refs: Vec<RefSeq>,
     pub read_groups: Vec<String>,
     pub reads: Vec<ReadDesc>,
+    /// @SQ LN values that differ from the length of the sequences in the repository (only for
+    /// streams whose placed records never touch the reference: placed unmapped reads in
+    /// multi-reference slices at coordinates a real reference would be too costly for)
+    pub declared_lengths: Option<Vec<usize>>,
 }
 
 impl Stream {
@@ -518,7 +522,8 @@ impl Stream {
     pub fn header(&self) -> sam::Header {
         let mut b = sam::Header::builder().set_header(Map::<map::Header>::new(Version::new(1, 6)));
         for r in &self.refs {
-            let len = NonZero::new(r.seq.len()).expect("reference length > 0");
+            let len = self.declared_lengths.as_ref().map(|v| v[self.refs.iter().position(|x| x.name == r.name).unwrap()]).unwrap_or(r.seq.len());
+            let len = NonZero::new(len).expect("reference length > 0");
             let m = if r.with_m5 {
                 Map::<ReferenceSequence>::builder()
                     .set_length(len)
@@ -1299,7 +1304,7 @@ pub fn gen_stream(rng: &mut Rng, o: &GenOpts) -> Stream {
         }
     }
     finalize_mates(&mut reads);
-    Stream { refs, read_groups, reads }
+    Stream { refs, read_groups, reads, declared_lengths: None }
 }
 
 /// Reference-sequence context of a group of records as the CRAM specification defines it for a
